@@ -422,6 +422,143 @@ fn c01_end_seq__complete() {
 }
 
 
+// ---- contract: StructSerializer::{variant, structure, unit, end_struct}  (depth bookkeeping of struct / variant) ----
+// requires wf(depths)
+// ensures  variant():   Ok <=> variant depth + 1 within the limits ; Ok ==> serializer depth = d0 with variant + 1,
+//                       the depth SAVED for end_struct is the ORIGINAL d0 ; field index 0
+//          structure(): same with the structure counter
+//          end_struct() after either: serializer depth == d0   (siblings never see a leaked counter)
+static SIG_V: Signature = Signature::Variant;
+static SIG_STRUCT_YT: Signature = Signature::static_structure(&[&SIG_Y, &SIG_T]);
+
+macro_rules! struct_open_unit {
+    ($name:ident, $ctor:ident, $sig:expr, $ds:expr, $dv:expr,
+     $o_iff:literal, $o_depth:literal, $o_saved:literal, $o_restored:literal, $o_nowrite:literal) => {
+        #[cfg(kani)]
+        #[kani::proof]
+        #[kani::stub(alloc::fmt::format, stub_format)]
+        #[kani::stub(<Signature as std::clone::Clone>::clone, stub_sig_clone)]
+        #[kani::unwind(3)]
+        fn $name() {
+            let buf0: [u8; 16] = kani::any();
+            let mut buf = buf0;
+            let w0: usize = kani::any();
+            kani::assume(w0 <= 8);
+            let mut cur: Cur<'_> = Cursor::new(&mut buf[..]);
+            cur.set_position(w0 as u64);
+            let mut fds = ManuallyDrop::new(FdList::Number(0));
+            let (mut ser, _big) = any_ser(&mut cur, &mut fds, $sig);
+            let d0 = any_wf_depths();
+            let (s0, a0, v0) = counters(&d0);
+            ser.0.container_depths = d0;
+            let bw0 = ser.0.bytes_written;
+            let expect_ok = spec_depth_ok(s0 as u32 + $ds, a0 as u32, v0 as u32 + $dv, 0);
+            let r = StructSerializer::$ctor(&mut *ser);
+            obl!($o_iff, r.is_ok() == expect_ok);
+            match r {
+                Ok(st) => {
+                    obl!($o_depth, counters(&st.ser.0.container_depths) == (s0 + $ds as u8, a0, v0 + $dv as u8) && st.field_idx == 0);
+                    obl!($o_saved, counters(&st.container_depths) == (s0, a0, v0));
+                    let e = st.end_struct();
+                    obl!($o_restored, e.is_ok() && counters(&ser.0.container_depths) == (s0, a0, v0));
+                    core::mem::forget(e);
+                }
+                Err(e) => { core::mem::forget(e); }
+            }
+            obl!($o_nowrite, ser.0.bytes_written == bw0);
+            kani::cover!(expect_ok, "cover.ok");
+            kani::cover!(!expect_ok, "cover.depth_exceeded");
+        }
+    };
+}
+// @unit C07.struct_ser.variant props=C07,C01 kind=complete fn=zvariant::dbus::ser::StructSerializer::variant,zvariant::dbus::ser::StructSerializer::end_struct timeout=600
+struct_open_unit!(c07_struct_ser_variant__complete, variant, &SIG_V, 0, 1,
+    "C07.struct_ser.variant.ok_iff_within_limits", "C07.struct_ser.variant.depth_incremented", "C07.struct_ser.variant.saved_depth_is_original",
+    "C07.struct_ser.variant.end_struct_restores_original_depth", "C07.struct_ser.variant.writes_nothing");
+// @unit C07.struct_ser.structure props=C07,C01 kind=complete fn=zvariant::dbus::ser::StructSerializer::structure,zvariant::dbus::ser::StructSerializer::end_struct timeout=600
+struct_open_unit!(c07_struct_ser_structure__complete, structure, &SIG_STRUCT_YT, 1, 0,
+    "C07.struct_ser.structure.ok_iff_within_limits", "C07.struct_ser.structure.depth_incremented", "C07.struct_ser.structure.saved_depth_is_original",
+    "C07.struct_ser.structure.end_struct_restores_original_depth", "C07.struct_ser.structure.writes_nothing");
+
+// ---- contract: StructSerializer::serialize_struct_element (field k of a structure) ----------------------------
+// The field value is a probe (`PeekSer`) whose Serialize impl records the state of the nested serializer it is
+// handed (in these harnesses S is always `&mut dbus::Serializer<Cursor<&mut [u8]>>`, read through a pointer cast)
+// and then serializes one byte through it.
+// ensures  the nested serializer carries FIELD k's signature (k = field index before the call), the parent's
+//          context, byte counter and CONTAINER DEPTHS (so nested containers count from the parent's depth);
+//          afterwards parent.bytes_written = child's final count ; field index + 1 ; parent depth/signature unchanged
+struct PeekSer<'p> {
+    out: &'p core::cell::Cell<Option<((u8, u8, u8), usize, *const Signature, usize)>>,
+}
+impl<'p> Serialize for PeekSer<'p> {
+    fn serialize<S: serde::Serializer>(&self, s: S) -> core::result::Result<S::Ok, S::Error> {
+        assert!(core::mem::size_of::<S>() == core::mem::size_of::<&mut Serializer<'static, Cur<'static>>>());
+        {
+            let child: &Serializer<'_, Cur<'_>> = unsafe { &**(&s as *const S as *const &mut Serializer<'_, Cur<'_>>) };
+            self.out.set(Some((counters(&child.0.container_depths), child.0.bytes_written,
+                               child.0.signature as *const Signature, child.0.ctxt.position())));
+        }
+        s.serialize_u8(0xA5)
+    }
+}
+
+// @unit C01.struct_element props=C01,C07 kind=instance bound=struct=(yt),probe-field fn=zvariant::dbus::ser::StructSerializer::serialize_struct_element timeout=900
+#[cfg(kani)]
+#[kani::proof]
+#[kani::stub(alloc::fmt::format, stub_format)]
+#[kani::stub(<Signature as std::clone::Clone>::clone, stub_sig_clone)]
+#[kani::stub(<str as std::string::ToString>::to_string, stub_str_to_string)]
+#[kani::unwind(4)]
+fn c01_struct_element__yt() {
+    let buf0: [u8; 16] = kani::any();
+    let mut buf = buf0;
+    let w0: usize = kani::any();
+    kani::assume(w0 <= 4);
+    let mut cur: Cur<'_> = Cursor::new(&mut buf[..]);
+    cur.set_position(w0 as u64);
+    let mut fds = ManuallyDrop::new(FdList::Number(0));
+    let (mut ser, _big) = any_ser(&mut cur, &mut fds, &SIG_STRUCT_YT);
+    let d0 = any_wf_depths();
+    let (s0, a0, v0) = counters(&d0);
+    ser.0.container_depths = d0;
+    let bw0 = ser.0.bytes_written;
+    let position = ser.0.ctxt.position();
+    let saved = any_wf_depths();
+    let field_idx: usize = kani::any();
+    kani::assume(field_idx <= 2);
+    let cell = core::cell::Cell::new(None);
+    let mut st = ManuallyDrop::new(StructSerializer { ser: &mut *ser, container_depths: saved, field_idx });
+    let r = st.serialize_struct_element(&PeekSer { out: &cell });
+    let bw1 = st.ser.0.bytes_written;
+    let fi1 = st.field_idx;
+    let depths1 = counters(&st.ser.0.container_depths);
+    let sig_same = core::ptr::eq(st.ser.0.signature, &SIG_STRUCT_YT);
+    let is_ok = r.is_ok();
+    core::mem::forget(r);
+    if field_idx >= 2 {
+        obl!("C01.struct_element.too_many_fields_rejected", !is_ok);
+    } else {
+        // field 0 is `y`; field 1 is `t` (the probe's byte is then written after padding to 8: no claim on those bytes here)
+        let seen = cell.get();
+        obl!("C01.struct_element.nested_serializer_created", seen.is_some());
+        if let Some((depths, bw, sig, pos)) = seen {
+            obl!("C01.struct_element.nested_signature_is_field_k", core::ptr::eq(sig, if field_idx == 0 { &SIG_Y } else { &SIG_T }));
+            obl!("C07.struct_element.nested_inherits_parent_depth", depths == (s0, a0, v0));
+            obl!("C01.struct_element.nested_inherits_counter_and_position", bw == bw0 && pos == position);
+        }
+        if field_idx == 0 {
+            obl!("C01.struct_element.ok", is_ok);
+            obl!("C01.struct_element.counter_handed_back", bw1 == bw0 + 1);
+            obl!("C01.struct_element.field_bytes_written_through_nested", buf[w0] == 0xA5);
+        }
+        obl!("C01.struct_element.field_index_advanced", fi1 == field_idx + 1);
+    }
+    obl!("C07.struct_element.parent_depth_unchanged", depths1 == (s0, a0, v0));
+    obl!("C01.struct_element.parent_signature_unchanged", sig_same);
+    kani::cover!(is_ok, "cover.ok");
+    kani::cover!(is_ok && field_idx == 1, "cover.second_field");
+}
+
 // =================================================================================================================
 // C02: encode -> decode returns the original value, and the decoder consumes exactly the bytes written.
 // Composed units: the REAL per-type serializer method writes into a window at an arbitrary message position and
